@@ -359,5 +359,13 @@ def replay(path):
     evs, calls, status, injected, fm = window(r)
     print("replayed:", rp["scenario"], "k=%s errno=%s" % (rp["k"], rp["errno"]), "status", status)
     for e in evs:
+        if e["ev"] in ("begin", "end"):
+            e["run"] = 1
         print("  ", json.dumps(e))
+    if status == "complete":
+        path = os.path.join(chk.work, "fdtable_trace_replay.ndjson")
+        core.write_ndjson(path, evs)
+        res = core.run_tlc("FdTableTrace.tla", "FdTableTrace.cfg", workers=1, env={"TRACE": path}, timeout=300, xmx="1g")
+        for w in res.printed("W"):
+            print("FdTableTrace verdict: broken obligations %s, on /proc snapshot %s" % (w["bad"], w["snapbad"]))
     return 0
